@@ -279,11 +279,15 @@ Definition spec_internals (c : cfg) (k : nkind) (a : attrs) : bool :=
   | _ => true
   end.
 
+(* common blocks and final procedures have no accessibility: shown unless the display is `none` *)
+Definition perm_free (l : lname) : bool := in_lists l [LCommon; LFinalProcs].
+Definition dset_nonempty (d : dset) : bool := d_pub d || d_priv d || d_prot d.
+
 (* is the child (in list l) of a selected node (kind k, attrs a, display d below it) selected? *)
 Definition child_selected (c : cfg) (k : nkind) (a : attrs) (d : dset) (l : lname) (ch : attrs) : bool :=
   if is_unit_list l then true                     (* program units and top-level procedures: always *)
   else if lname_eqb l LArgs then true             (* dummy arguments are part of their procedure *)
-  else dset_has d (a_perm ch)
+  else (if perm_free l then dset_nonempty d else dset_has d (a_perm ch))
        && (negb (c_hide_undoc c) || documented ch)
        && spec_internals c k a.
 
